@@ -521,3 +521,69 @@ def word(tr):
     return "".join({"submit": "S", "cancel": "C", "exec": "X", "flush": "F", "cancelall": "A", "prune": "P",
                     "price": "p"}[e["k"]] + ("!" if e["k"] == "submit" and not e.get("acc", True) else "")
                    for e in tr["ev"])
+
+
+# ------------------------------------------------------------------------------------------------
+# reporting helpers shared by the checks c03 / c04 / c05
+# ------------------------------------------------------------------------------------------------
+def ops_of(tr, upto=None):
+    """driver operations of a recorded trace (for replay files)"""
+    evs = tr["ev"] if upto is None else tr["ev"][:upto]
+    return [dict({k: v for k, v in e.items() if k not in ("k", "exc", "acc", "post", "rejexc")}, op=e["k"]) for e in evs]
+
+
+def fill_kinds(kind, tr):
+    """coverage counting only: effect class of every fill in the judged part of a trace (from the logged states)"""
+    res = []
+    prev = tr["init"]
+    for e in tr["ev"]:
+        post = e.get("post")
+        if post is None:
+            break
+        if e["k"] in ("exec", "flush") and e["exc"] == "none":
+            key = "pq" if kind == "futures" else "pos"
+            for s in prev[key]:
+                a, b = prev[key][s], post[key][s]
+                if a == b:
+                    continue
+                res.append("open" if a == 0 else "close" if b == 0 else "flip" if a * b < 0 else
+                           "increase" if abs(b) > abs(a) else "reduce")
+        if e["k"] in ("exec", "cancel") and e["exc"] == "none" and prev["ord"][e["id"] - 1]["st"] != "A":
+            res.append("duplicate-" + e["k"])
+        if e["k"] == "submit" and not e.get("acc", True):
+            res.append("rejection")
+        prev = post
+    return res
+
+
+def nontrivial(kind, tr, prefix_ops=None):
+    """DESIGN appendix C: >= 1 fill and >= 1 of {cancel, reduce, flip, rejection, duplicate call}"""
+    w = "".join({"submit": "S", "cancel": "C", "exec": "X", "flush": "F", "cancelall": "A", "prune": "P", "price": "p"}[o["op"]]
+                for o in (prefix_ops or [])) + word(tr)
+    fk = fill_kinds(kind, tr)
+    return (("X" in w or "F" in w) and ("C" in w or "A" in w or "!" in w or any(
+        k in ("reduce", "flip", "close", "duplicate-exec", "duplicate-cancel") for k in fk)))
+
+
+def report(ctx, pid, kind, traces, verdicts, proj, src, meta=None, report_known=True, hist_of=None):
+    """turn TLC's verdicts into ctx.violation entries; returns (rejected, named) counts"""
+    bad = named = 0
+    for t in traces:
+        v = verdicts[t["id"]]
+        l, verdict = v[0], v[1]
+        known = list(v[2]) if len(v) > 2 else []
+        full_ops = (hist_of(t) if hist_of else None) or ops_of(t)
+        payload = {"kind": kind, "proj": proj, "hdr": t["hdr"], "ops": full_ops, "src": src}
+        if verdict != "ok":
+            bad += 1
+            ctx.violation("%s %s %s" % (pid, kind, verdict),
+                          "%s trace %d (%s, %s) rejected at judged event %d: %s; ops=%s" % (
+                              kind, t["id"], src, {k: v for k, v in t["hdr"].items() if k != "cur0"}, l, verdict,
+                              full_ops[-6:]), payload)
+        if report_known:
+            for k in known:
+                named += 1
+                ctx.violation("%s %s %s" % (pid, kind, k),
+                              "%s trace %d (%s): the code deviates from the reference account exactly as the named "
+                              "quirk of Spot.tla: %s; ops=%s" % (kind, t["id"], src, k, full_ops[-6:]), payload)
+    return bad, named
